@@ -350,4 +350,336 @@ theorem wf_run (c : Cfg) : ∀ (es : List Event) (s s' : State), WF c s → run 
       simp only [hs] at h
       exact ih s1 s' (wf_step c s s1 e hw hs) h
 
+/-! ### the schedule replay satisfies the judged predicate -/
+
+open Casket.AccountingSpec
+
+def inflightList (c : Cfg) (s : State) : List Nat := (List.range c.nHosts).map (forwardingTo s)
+
+theorem wf_stepD (c : Cfg) (s : State) (e : Event) (hw : WF c s) : WF c (stepD c s e) := by
+  unfold stepD
+  cases h : step c s e with
+  | none => exact hw
+  | some s' => exact wf_step c s s' e hw h
+
+theorem conns_eq_inflight (c : Cfg) (s : State) (hw : WF c s) : s.conns = natsToInts (inflightList c s) := by
+  apply List.ext_getElem?
+  intro i
+  unfold natsToInts inflightList
+  rw [List.getElem?_map, List.getElem?_map]
+  by_cases hi : i < c.nHosts
+  · rw [List.getElem?_range hi]
+    have h1 : i < s.conns.length := by rw [hw.lenC]; exact hi
+    rw [List.getElem?_eq_getElem h1]
+    have := hw.connsExact i
+    unfold getI at this
+    rw [List.getD_eq_getElem?_getD, List.getElem?_eq_getElem h1] at this
+    simp only [Option.getD_some] at this
+    simp [this]
+  · have h1 : s.conns[i]? = none := List.getElem?_eq_none (by rw [hw.lenC]; omega)
+    have h2 : (List.range c.nHosts)[i]? = none := List.getElem?_eq_none (by simp; omega)
+    simp [h1, h2]
+
+theorem fails_eq_timers (c : Cfg) (s : State) (hw : WF c s) : s.fails = natsToInts s.timers := by
+  apply List.ext_getElem?
+  intro i
+  unfold natsToInts
+  rw [List.getElem?_map]
+  by_cases hi : i < c.nHosts
+  · have h1 : i < s.fails.length := by rw [hw.lenF]; exact hi
+    have h2 : i < s.timers.length := by rw [hw.lenT]; exact hi
+    rw [List.getElem?_eq_getElem h1, List.getElem?_eq_getElem h2]
+    have := hw.failsExact i
+    unfold getI getN at this
+    rw [List.getD_eq_getElem?_getD, List.getD_eq_getElem?_getD, List.getElem?_eq_getElem h1,
+      List.getElem?_eq_getElem h2] at this
+    simp only [Option.getD_some] at this
+    simp [this]
+  · have h1 : s.fails[i]? = none := List.getElem?_eq_none (by rw [hw.lenF]; omega)
+    have h2 : s.timers[i]? = none := List.getElem?_eq_none (by rw [hw.lenT]; omega)
+    simp [h1, h2]
+
+theorem inflight_getD (c : Cfg) (s : State) (h : Nat) (hh : h < c.nHosts) :
+    (inflightList c s).getD h 0 = forwardingTo s h := by
+  unfold inflightList
+  rw [List.getD_eq_getElem?_getD, List.getElem?_map, List.getElem?_range hh]
+  rfl
+
+theorem specAvail_eq (c : Cfg) (s : State) (hw : WF c s) (h : Nat) :
+    specAvail c s.timers (inflightList c s) h = avail c s h := by
+  unfold specAvail avail down full
+  by_cases hh : h < c.nHosts
+  · rw [inflight_getD c s h hh]
+    have h1 := hw.connsExact h
+    have h2 := hw.failsExact h
+    unfold getN at h2
+    rw [h1, h2]
+    have e1 : decide ((forwardingTo s h : Int) ≥ (c.maxConns : Int)) = decide (forwardingTo s h ≥ c.maxConns) := by simp
+    have e2 : decide (((s.timers.getD h 0 : Nat) : Int) ≥ (c.maxFails : Int)) = decide (s.timers.getD h 0 ≥ c.maxFails) := by simp
+    have e3 : ∀ a : Nat, decide (a < c.maxFails) = !decide (a ≥ c.maxFails) := by
+      intro a
+      by_cases hf : a < c.maxFails
+      · have : ¬ (a ≥ c.maxFails) := by omega
+        simp [hf, this]
+      · have : a ≥ c.maxFails := by omega
+        simp [hf, this]
+    rw [e1, e2, e3 (s.timers.getD h 0)]
+    cases c.unhealthy.getD h false <;> cases decide (s.timers.getD h 0 ≥ c.maxFails) <;> simp [hh]
+  · simp [hh]
+
+theorem modify_modify_cancel (l : List Nat) (h : Nat) : dropN (bumpN l h) h = l := by
+  unfold dropN bumpN
+  apply List.ext_getElem?
+  intro i
+  rw [List.getElem?_modify, List.getElem?_modify]
+  cases l[i]? with
+  | none => rfl
+  | some a => by_cases hi : h = i <;> simp [hi]
+
+theorem firstAvail_none (c : Cfg) (s : State) (h : firstAvail c s = none) : ∀ k < c.nHosts, avail c s k = false := by
+  intro k hk
+  unfold firstAvail at h
+  rw [List.find?_eq_none] at h
+  have := h k (List.mem_range.mpr hk)
+  simpa using this
+
+theorem chooseHost_some (c : Cfg) (s : State) (x h : Nat) (hc : chooseHost c s x = some h) : avail c s h = true := by
+  unfold chooseHost at hc
+  by_cases ha : avail c s (x % c.nHosts) = true
+  · simp only [ha, if_true, Option.some.injEq] at hc; rw [← hc]; exact ha
+  · simp only [ha, Bool.false_eq_true, if_false] at hc
+    unfold firstAvail at hc
+    exact (List.find?_some hc)
+
+theorem chooseHost_none (c : Cfg) (s : State) (x : Nat) (hc : chooseHost c s x = none) : ∀ k < c.nHosts, avail c s k = false := by
+  unfold chooseHost at hc
+  by_cases ha : avail c s (x % c.nHosts) = true
+  · simp [ha] at hc
+  · simp only [ha, Bool.false_eq_true, if_false] at hc
+    exact firstAvail_none c s hc
+
+/-- what the judge needs to know about the label of an action taken from state `s` -/
+def labelOK (c : Cfg) (s : State) : Label → Prop
+  | .sel h => avail c s h = true
+  | .none => ∀ k < c.nHosts, avail c s k = false
+  | _ => True
+
+theorem stepD_timers_select (c : Cfg) (s : State) (t : Nat) (ch : Option Nat) (a : Bool) :
+    (stepD c s (.select t ch a)).timers = s.timers := by
+  simp only [stepD, step]
+  cases s.pcs[t]? with
+  | none => rfl
+  | some pc =>
+    cases pc with
+    | idle =>
+      cases ch with
+      | none => rfl
+      | some h => by_cases ha : avail c s h = true <;> simp [ha, setPC]
+    | selected _ => rfl
+    | forwarding _ => rfl
+    | failed _ => rfl
+    | done => rfl
+
+theorem stepD_timers_reserve (c : Cfg) (s : State) (t : Nat) : (stepD c s (.reserve t)).timers = s.timers := by
+  simp only [stepD, step]
+  cases s.pcs[t]? with
+  | none => rfl
+  | some pc =>
+    cases pc with
+    | selected h => by_cases hf : full c s h = true <;> simp [hf, setPC]
+    | idle => rfl
+    | forwarding _ => rfl
+    | failed _ => rfl
+    | done => rfl
+
+theorem advance_spec (c : Cfg) (ex : Expiry) (s : State) (t x : Nat) (hw : WF c s)
+    (hcf : c.countFails = (ex != .off)) :
+    WF c (advance c ex s t x).1 ∧
+    (advance c ex s t x).1.timers = outstandingAfter ex s.timers (advance c ex s t x).2 ∧
+    labelOK c s (advance c ex s t x).2 := by
+  unfold advance
+  cases hpc : s.pcs[t]? with
+  | none => exact ⟨hw, rfl, trivial⟩
+  | some pc =>
+    cases pc with
+    | idle =>
+      simp only
+      cases hch : chooseHost c s x with
+      | some h =>
+        exact ⟨wf_stepD c s _ hw, stepD_timers_select c s t _ _, chooseHost_some c s x h hch⟩
+      | none =>
+        exact ⟨wf_stepD c s _ hw, stepD_timers_select c s t _ _, chooseHost_none c s x hch⟩
+    | selected h =>
+      simp only
+      by_cases hf : ((stepD c s (.reserve t)).pcs[t]? == some (.forwarding h)) = true
+      · simp only [hf, if_true]
+        exact ⟨wf_stepD c s _ hw, stepD_timers_reserve c s t, trivial⟩
+      · simp only [hf, Bool.false_eq_true, if_false]
+        cases firstAvail c (stepD c s (.reserve t)) with
+        | some _ => exact ⟨wf_stepD c s _ hw, stepD_timers_reserve c s t, trivial⟩
+        | none =>
+          refine ⟨wf_stepD c _ _ (wf_stepD c s _ hw), ?_, trivial⟩
+          rw [stepD_timers_select, stepD_timers_reserve]
+          rfl
+    | forwarding h =>
+      simp only
+      have hlt : h < c.nHosts := hw.hostsOk t _ hpc
+      -- the round trip ends
+      have hfin : ∀ o, step c s (.finish t o) = some (setPC { s with conns := bump s.conns h (-1) } t
+          (if o = .err then .failed h else .done)) := by
+        intro o
+        simp only [step, hpc]
+        cases o <;> rfl
+      have htl : t < s.pcs.length := by
+        by_cases hk : t < s.pcs.length
+        · exact hk
+        · have : s.pcs[t]? = none := List.getElem?_eq_none (by omega)
+          rw [this] at hpc; cases hpc
+      by_cases ho : decodeOutcome x = .err
+      · -- failed: the failure is recorded (and, with an immediate expiry, forgotten again)
+        simp only [ho]
+        have hs1 : stepD c s (.finish t .err) =
+            setPC { s with conns := bump s.conns h (-1) } t (.failed h) := by
+          unfold stepD; rw [hfin]; rfl
+        have hpc1 : (setPC { s with conns := bump s.conns h (-1) } t (.failed h)).pcs[t]? = some (.failed h) := by
+          simp [setPC, List.getElem?_set, htl]
+        have hw1 : WF c (setPC { s with conns := bump s.conns h (-1) } t (.failed h)) := by
+          rw [← hs1]; exact wf_stepD c s _ hw
+        simp only [hs1, beq_self_eq_true, if_true, Bool.true_and]
+        have hs2 : stepD c (setPC { s with conns := bump s.conns h (-1) } t (.failed h)) (.countFail t false) =
+            setPC (if c.countFails then
+              { (setPC { s with conns := bump s.conns h (-1) } t (.failed h)) with
+                fails := bump s.fails h 1, timers := bumpN s.timers h }
+              else setPC { s with conns := bump s.conns h (-1) } t (.failed h)) t .done := by
+          unfold stepD
+          simp only [step, hpc1]
+          rfl
+        cases ex with
+        | off =>
+          have hc0 : c.countFails = false := by rw [hcf]; rfl
+          simp only [show (Expiry.off == Expiry.immediate) = false from rfl, Bool.false_eq_true, if_false]
+          refine ⟨wf_stepD c _ _ hw1, ?_, trivial⟩
+          rw [hs2, hc0]
+          simp [setPC, outstandingAfter]
+        | never =>
+          have hc1 : c.countFails = true := by rw [hcf]; rfl
+          simp only [show (Expiry.never == Expiry.immediate) = false from rfl, Bool.false_eq_true, if_false]
+          refine ⟨wf_stepD c _ _ hw1, ?_, trivial⟩
+          rw [hs2, hc1]
+          simp [setPC, outstandingAfter, bumpN]
+        | immediate =>
+          have hc1 : c.countFails = true := by rw [hcf]; rfl
+          simp only [beq_self_eq_true, if_true]
+          refine ⟨wf_stepD c _ _ (wf_stepD c _ _ hw1), ?_, trivial⟩
+          rw [hs2, hc1]
+          simp only [if_true]
+          have hpos : getN (bumpN s.timers h) h > 0 := by
+            rw [getN_bumpN, hw.lenT]; simp [hlt]
+          unfold stepD
+          simp only [step, setPC, hpos, if_true, Option.getD_some]
+          simp [outstandingAfter, modify_modify_cancel]
+      · -- any other outcome: nothing is recorded
+        have hne : (decodeOutcome x == Outcome.err) = false := by simp [ho]
+        simp only [hne, Bool.false_and, Bool.false_eq_true, if_false]
+        refine ⟨wf_stepD c s _ hw, ?_, trivial⟩
+        have : (stepD c s (.finish t (decodeOutcome x))).timers = s.timers := by
+          unfold stepD; rw [hfin]; rfl
+        rw [this]
+        cases hd : decodeOutcome x <;> first | rfl | exact absurd hd ho
+    | failed h => exact ⟨hw, rfl, trivial⟩
+    | done => exact ⟨hw, rfl, trivial⟩
+
+theorem cap_inflight (c : Cfg) (s : State) (hw : WF c s) :
+    (decide (c.maxConns > 0) && (inflightList c s).any (fun n => decide (n > c.maxConns))) = false := by
+  by_cases hm : c.maxConns > 0
+  · simp only [hm, decide_true, Bool.true_and]
+    rw [Bool.eq_false_iff]
+    intro hany
+    rw [List.any_eq_true] at hany
+    obtain ⟨n, hn, hgt⟩ := hany
+    unfold inflightList at hn
+    obtain ⟨h, _, rfl⟩ := List.mem_map.mp hn
+    have h1 := hw.cap hm h
+    have h2 := hw.connsExact h
+    simp only [decide_eq_true_eq] at hgt
+    omega
+  · simp [hm]
+
+theorem allZero_conns (c : Cfg) (s : State) (hw : WF c s) (hz : allZeroN (inflightList c s) = true) :
+    allZeroI s.conns = true := by
+  rw [conns_eq_inflight c s hw]
+  unfold allZeroI allZeroN natsToInts at *
+  rw [List.all_eq_true] at hz ⊢
+  intro x hx
+  obtain ⟨n, hn, rfl⟩ := List.mem_map.mp hx
+  have := hz n hn
+  simp only [beq_iff_eq] at this ⊢
+  subst this; rfl
+
+theorem checkSnap_none (c : Cfg) (s s' : State) (l : Label) (hw : WF c s) (hw' : WF c s')
+    (hl : labelOK c s l) (hts : ∀ h, l = .sel h → s'.timers = s.timers) (htn : l = .none → s'.timers = s.timers) :
+    checkSnap c s'.timers (inflightList c s) (snap c s' l) = none := by
+  unfold checkSnap snap
+  simp only
+  have e1 : (s'.conns != natsToInts ((List.range c.nHosts).map (forwardingTo s'))) = false := by
+    have := conns_eq_inflight c s' hw'
+    unfold inflightList at this
+    rw [← this]; simp
+  have e2 := cap_inflight c s' hw'
+  unfold inflightList at e2
+  have e3 : (s'.fails != natsToInts s'.timers) = false := by
+    rw [← fails_eq_timers c s' hw']; simp
+  simp only [e1, e2, e3, Bool.false_eq_true, if_false]
+  cases l with
+  | sel h =>
+    simp only
+    rw [hts h rfl, specAvail_eq c s hw h]
+    simp only [labelOK] at hl
+    simp [hl]
+  | none =>
+    simp only
+    rw [htn rfl]
+    have : (List.range c.nHosts).any (specAvail c s.timers (inflightList c s)) = false := by
+      rw [Bool.eq_false_iff]
+      intro hany
+      obtain ⟨k, hk, hav⟩ := List.any_eq_true.mp hany
+      rw [specAvail_eq c s hw k] at hav
+      simp only [labelOK] at hl
+      rw [hl k (List.mem_range.mp hk)] at hav
+      cases hav
+    simp [this]
+  | final =>
+    simp only
+    by_cases hz : allZeroN ((List.range c.nHosts).map (forwardingTo s')) = true
+    · have := allZero_conns c s' hw' hz
+      simp [hz, this]
+    · simp [hz]
+  | fwd _ => rfl
+  | lost _ => rfl
+  | fin _ _ => rfl
+  | noop => rfl
+
+/-- The judged predicate holds on every replay of the model from a well-formed state. -/
+theorem verdictGo_replay (c : Cfg) (ex : Expiry) (hcf : c.countFails = (ex != .off)) :
+    ∀ (es : List (Nat × Nat)) (s : State), WF c s →
+      verdictGo c ex s.timers (inflightList c s) (replay c ex s es) = "ok" := by
+  intro es
+  induction es with
+  | nil =>
+    intro s hw
+    simp only [replay, verdictGo]
+    have : outstandingAfter ex s.timers (snap c s .final).label = s.timers := rfl
+    rw [this, checkSnap_none c s s .final hw hw trivial (by intro h hh; cases hh) (by intro hh; cases hh)]
+  | cons e es ih =>
+    intro s hw
+    obtain ⟨t, x⟩ := e
+    obtain ⟨hw', htim, hlab⟩ := advance_spec c ex s t x hw hcf
+    simp only [replay, verdictGo]
+    have hout : outstandingAfter ex s.timers (snap c (advance c ex s t x).1 (advance c ex s t x).2).label =
+        (advance c ex s t x).1.timers := by rw [htim]; rfl
+    rw [hout]
+    rw [checkSnap_none c s (advance c ex s t x).1 (advance c ex s t x).2 hw hw' hlab
+      (by intro h hh; rw [htim, hh]; rfl) (by intro hh; rw [htim, hh]; rfl)]
+    exact ih _ hw'
+
 end Casket.Accounting
